@@ -21,7 +21,7 @@ from .C15 import defgrad
 PROP = "C09"
 
 EVIDENCE = {
-    "probes_expected": ["affine-field-checked", "uniform-F-checked", "curve-y-checked", "curve-x-checked", "twin-compared", "history-immutable-checked", "distorted-mesh", "curved-tri6", "fault:solver_inexact", "material-curve-checked", "load-unload"],
+    "probes_expected": ["affine-field-checked", "uniform-F-checked", "curve-y-checked", "curve-x-checked", "twin-compared", "history-immutable-checked", "distorted-mesh", "curved-tri6", "fault:solver_inexact", "material-curve-checked", "load-unload", "clamp-released-on-same-step"],
     "clauses_sampled_only": ["'material-level uniaxial, planar and biaxial curves agree with the same analytic stresses' (umat.view()) is a pure function of the material; it is evaluated once per run as sampling"],
 }
 
@@ -101,6 +101,12 @@ def generate(seed, tier, k):
     if k % 3 == 2:
         doc["faults"].append({"kind": "solver_inexact", "rel": r.choice([1e-12, 1e-9, 1e-6, 1e-4, 1e-3]), "seed": r.randrange(1000)})
     doc["c09"] = {"twin": r.random() < 0.5, "twin_seed": r.randrange(1 << 30), "view": r.random() < 0.3}
+    if case == "uniaxial" and r.random() < 0.25:
+        # two-phase history on the same Step object: first with the loaded face clamped (not
+        # homogeneous, no oracle), then the clamp is released and the ramp continues
+        doc["c09"]["release_clamp"] = True
+        doc["c09"]["twin"] = False
+        doc["bc"]["clamped"] = True
     return doc
 
 
@@ -190,6 +196,36 @@ class C09Monitor(jobsim.Monitor):
         self.records.append({"step": j, "substep": i, "level": [r["values"][i] for r in ramp], "u": u.copy(), "P": P})
 
 
+def simulate_release(doc, log):
+    """Phase 1 with the clamp, phase 2 (checked) after `del step.boundaries['right']`."""
+    dd = copy.deepcopy(doc)
+    w = world.World(dd)
+    eng1 = jobsim.Engine(w, dd, EventLog(), monitors=[])
+    with eng1:
+        job1, exc1 = eng1.run_job(job_cls=fem.CharacteristicCurve, job_kwargs={"boundary": w.ramp_bc["move"]})
+    if exc1 is not None:
+        if isinstance(exc1, ValueError):
+            raise Discard("clamped-phase-did-not-converge")
+        raise exc1
+    step = w.steps[0]
+    if "right" not in step.boundaries:
+        raise Discard("no-clamp-boundary")
+    del step.boundaries["right"]
+    vals = dd["steps"][0]["ramp"][0]["values"]
+    last = vals[-1]
+    new_vals = [round(0.6 * last, 6), round(1.1 * last, 6), round(last, 6)]
+    dd["steps"][0]["ramp"][0]["values"] = new_vals
+    new = w._build_step(dd["steps"][0])
+    step.ramp = new.ramp
+    step.nsubsteps = new.nsubsteps
+    mon = C09Monitor(log, dd, w)
+    eng = jobsim.Engine(w, dd, log, monitors=[mon])
+    with eng:
+        job, exc = eng.run_job(job_cls=fem.CharacteristicCurve, job_kwargs={"boundary": w.ramp_bc["move"]})
+    log.count("clamp-released-on-same-step")
+    return w, eng, mon, job, exc, dd
+
+
 def simulate(doc, log, monitors=True):
     dd = copy.deepcopy(doc)
     w = world.World(dd)
@@ -205,7 +241,10 @@ def simulate(doc, log, monitors=True):
 
 
 def run(doc, log):
-    w, eng, mon, job, exc = simulate(doc, log)
+    if doc["c09"].get("release_clamp"):
+        w, eng, mon, job, exc, doc = simulate_release(doc, log)
+    else:
+        w, eng, mon, job, exc = simulate(doc, log)
     if exc is not None:
         if isinstance(exc, ValueError):
             raise Discard("newton-did-not-converge")
